@@ -53,6 +53,9 @@ def build(spec):
         base = np.array(list(itertools.product(range(n), repeat=3)), dtype=float)
         frac = (base + 0.5 + 0.2 * np.c_[np.sin(1.0 + 1.7 * k), np.cos(2.0 + 2.3 * k), np.sin(3.0 + 0.7 * k)]) / n
         return xtal.make_crystal(1, "", (2.2 * n, 2.2 * n, 2.2 * n, 90.0, 90.0, 90.0), [("C", "O", "N")[i % 3] for i in k], frac)
+    if spec["kind"] == "monatomic":
+        # molecules that are single atoms (rare gases, metals, ions): the asymmetric unit given in the spec, nothing bonded
+        return xtal.make_crystal(spec["number"], spec["choice"], tuple(spec["cell"]), list(spec["symbols"]), np.array(spec["frac"], dtype=float))
     if spec["kind"] == "file":
         from chmpy.crystal import Crystal
 
@@ -387,6 +390,14 @@ def run(ctx):
     specs.append({"kind": "grid", "n": 12, "radii": [12.0, 20.0, 30.0], "queries": ["point"], "label": "grid:12^3"})
     specs.append({"kind": "atoms5", "number": 148, "choice": "R", "cell": list(lattice.compatible_cells(148, "R")[1]), "seed": seed, "radii": [35.0],
                   "queries": ["point"], "label": "atoms5:148:R:long-radius"})
+    # (1c) degenerate sizes: crystals whose molecules are single atoms (fcc argon: one site, 4 atoms per cell; a one-atom P1 cell; an
+    # inversion-centre site next to a general one), every query kind, radii beyond the shortest lattice translation
+    specs.append({"kind": "monatomic", "number": 225, "choice": "", "cell": [5.31, 5.31, 5.31, 90.0, 90.0, 90.0], "symbols": ["Ar"], "frac": [[0.0, 0.0, 0.0]],
+                  "radii": [3.0, 3.8, 6.0, 12.0], "queries": ["point", "atomic", "molecule"], "label": "monatomic:fcc-Ar"})
+    specs.append({"kind": "monatomic", "number": 1, "choice": "", "cell": [4.1, 4.7, 5.3, 81.0, 97.0, 104.0], "symbols": ["Xe"], "frac": [[0.31, 0.62, 0.17]],
+                  "radii": [3.8, 6.0, 12.0], "queries": ["point", "atomic", "molecule"], "label": "monatomic:P1-one-atom"})
+    specs.append({"kind": "monatomic", "number": 2, "choice": "", "cell": [6.1, 6.7, 7.3, 81.0, 97.0, 104.0], "symbols": ["Kr", "Xe"], "frac": [[0.0, 0.0, 0.0], [0.31, 0.42, 0.57]],
+                  "radii": [3.8, 6.0, 12.0], "queries": ["point", "atomic", "molecule"], "label": "monatomic:P-1-centre+general"})
     # (2) bundled structures: all queries
     for f in ("iceII.cif", "acetic_acid.cif", "r3c_example.cif"):
         specs.append({"kind": "file", "path": TEST_FILES + f, "radii": [1.2, 3.8, 6.0, 12.0],
